@@ -118,7 +118,8 @@ class Tmatrix(ScatteringTheory):
         thet0 = 0
         thet = angles[:, 0]
         phi0 = 0
-        phi = angles[:, 1]
+        # the Fortran code needs 0 <= phi <= 360 degrees
+        phi = angles[:, 1] % 360
         nang = angles.shape[0]
 
         args = [axi, rat, lam, mrr, mri, eps, NP, ndgs, alpha, beta,
